@@ -656,7 +656,7 @@ func redisConcMerge(c *Ctx, s *cmdSched, kind string) {
 				}
 			})
 		}
-		order = s.runScheduled(c.rng.Int63(), nil, workers)
+		order = s.runScheduled(c.rng.Int63(), mergeFirstThenOthers(c, len(workers)), workers)
 		a, _ := parseCMS(T.Export())
 		b, _ := parseCMS(seq.Export())
 		final, want = matrixStr(a.M), matrixStr(b.M)
@@ -696,7 +696,7 @@ func redisConcMerge(c *Ctx, s *cmdSched, kind string) {
 				}
 			})
 		}
-		order = s.runScheduled(c.rng.Int63(), nil, workers)
+		order = s.runScheduled(c.rng.Int63(), mergeFirstThenOthers(c, len(workers)), workers)
 		a, _ := parseHLL(T.Export())
 		b, _ := parseHLL(seq.Export())
 		final, want = fmt.Sprint(a.R), fmt.Sprint(b.R)
@@ -938,4 +938,21 @@ func redisConcEquals(c *Ctx, s *cmdSched, ki int) {
 	if alternations(order) >= 2 {
 		c.nontrivial(fmt.Sprint(k.name, "equals", h, h2, order))
 	}
+}
+
+// mergeFirstThenOthers: in half of the runs the schedule starts with ONE command of the merging
+// client (worker 0) followed by all commands of the updating clients - the interleaving that
+// separates a read of the target from its write-back if the merge is more than one step; the
+// rest of the schedule (and the other half of the runs) is random.
+func mergeFirstThenOthers(c *Ctx, workers int) []int {
+	if c.rng.Intn(2) == 0 {
+		return nil
+	}
+	fixed := []int{0}
+	for w := 1; w < workers; w++ {
+		for i := 0; i < 8; i++ {
+			fixed = append(fixed, w)
+		}
+	}
+	return fixed
 }
